@@ -60,7 +60,32 @@ def reader_word(stmts: List[ast.stmt], pkt: str = 'packet') -> str:
 
     def simple(node: ast.AST) -> None:
         nonlocal ended
+        # getters inside a comprehension are a repetition
+        comps = [x for x in walk_shallow(node)
+                 if isinstance(x, (ast.ListComp, ast.GeneratorExp,
+                                   ast.SetComp))]
+        inside = set()
+        for cp in comps:
+            for c in ast.walk(cp.elt):
+                if isinstance(c, ast.Call):
+                    inside.add(id(c))
+        emitted_comp = set()
         for c in _calls_in_order(node):
+            if id(c) in inside:
+                for cp in comps:
+                    if id(cp) not in emitted_comp and any(
+                            x is c for x in ast.walk(cp.elt)):
+                        emitted_comp.add(id(cp))
+                        w = []
+                        for cc in _calls_in_order(cp.elt):
+                            ff = cc.func
+                            if isinstance(ff, ast.Attribute) and \
+                                    dotted(ff.value) == pkt and \
+                                    ff.attr in GETTER:
+                                w.append(GETTER[ff.attr])
+                        if w:
+                            out.append('(' + ' '.join(w) + ')*')
+                continue
             f = c.func
             if isinstance(f, ast.Attribute) and dotted(f.value) == pkt:
                 if f.attr in GETTER:
